@@ -61,6 +61,10 @@ class Ctx:
     def rule(self, rid, text):
         self.rules[rid] = text
 
+    def also(self, rid, text):
+        """a further clause of rule `rid`, usually a rule owned by another property and evaluated here under this id"""
+        self.rules[rid] = (self.rules.get(rid, "") + "; " + text).lstrip("; ")
+
     def saw_fn(self, fn):
         if fn.def_ not in self.analysed_fns:
             self.analysed_fns.add(fn.def_)
